@@ -1384,6 +1384,83 @@ theorem aggregate_fold_sum_partial {N : Type} [NumOps N] (cells : List (Spec.Val
     Spec.aggregate .sum cells = Spec.mkNum ((Spec.numbers cells).foldl add zero) := by
   simp [Impl.aggregate, Spec.aggregate, firstErr_none cells hne, sumStep_fold cells zero hz hb ht hnan]
 
+theorem avgStep_fold {N : Type} [NumOps N] (cells : List (Spec.Val N)) (c s : N)
+    (hne : ∀ v ∈ cells, NotErr v)
+    (ht : ∀ t, Spec.Val.text t ∈ cells → (parse t : Option N) = none) :
+    (cells.map toCell).foldl Impl.avgStep (c, s) =
+      ((Spec.numbers cells).foldl (fun c _ => add c one) c, (Spec.numbers cells).foldl add s) := by
+  induction cells generalizing c s with
+  | nil => rfl
+  | cons v rest ih =>
+    have hr := fun c' s' => ih c' s' (fun u hu => hne u (by simp [hu])) (fun t h => ht t (by simp [h]))
+    cases v with
+    | err e => exact absurd (hne (.err e) (by simp)) (by simp [NotErr])
+    | num x => simp [toCell, Impl.avgStep, Spec.numbers, hr]
+    | bool b => simp [toCell, Impl.avgStep, Spec.numbers, hr]
+    | blank => simp [toCell, Impl.avgStep, Spec.numbers, hr]
+    | text t =>
+      have := ht t (by simp)
+      by_cases h1 : t = sTRUE ∨ t = sFALSE
+      · simp [toCell, Impl.avgStep, Spec.numbers, h1, hr]
+      · simp [toCell, Impl.avgStep, Spec.numbers, h1, this, hr]
+
+/-- AVERAGE over a range without error cells and without numeric text is the mean of the numbers
+alone on both sides — booleans, blanks and other text are ignored — and `#DIV/0!` on both sides
+when the range holds no number (partial: numeric text is counted by excelize:
+`finding_aggregates`).  `hcnt`: counting the numbers by repeated `+1` does not give 0 (true for
+doubles below 2^53 cells). -/
+theorem aggregate_fold_average_partial {N : Type} [NumOps N] (C : LawfulCmp N) (cells : List (Spec.Val N))
+    (hne : ∀ v ∈ cells, NotErr v)
+    (ht : ∀ t, Spec.Val.text t ∈ cells → (parse t : Option N) = none)
+    (hcnt : Spec.numbers cells ≠ [] →
+      isZero ((Spec.numbers cells).foldl (fun c _ => add c one) (zero : N)) = false) :
+    (Spec.numbers cells = [] →
+      Impl.aggregate .average (cells.map toCell) = .error (.msg (.lit formulaErrorDIV)) ∧
+      Spec.aggregate .average cells = .err .div0) ∧
+    (Spec.numbers cells ≠ [] →
+      Impl.aggregate .average (cells.map toCell) =
+        .ok (Impl.mkNum (div ((Spec.numbers cells).foldl add zero)
+          ((Spec.numbers cells).foldl (fun c _ => add c one) zero))) ∧
+      Spec.aggregate .average cells =
+        Spec.mkNum (div ((Spec.numbers cells).foldl add zero)
+          ((Spec.numbers cells).foldl (fun c _ => add c one) zero))) := by
+  constructor
+  · intro h0
+    simp [Impl.aggregate, Spec.aggregate, firstErr_none cells hne, avgStep_fold cells zero zero hne ht, h0,
+      C.isZero_zero]
+  · intro h1
+    have := hcnt h1
+    simp only [Impl.aggregate, Spec.aggregate, firstErr_none cells hne, avgStep_fold cells zero zero hne ht,
+      this, Bool.false_eq_true, if_false]
+    cases hn : Spec.numbers cells with
+    | nil => exact absurd hn h1
+    | cons x xs => simp
+
+theorem countaStep_fold {N : Type} [NumOps N] (cells : List (Spec.Val N)) (n : Nat)
+    (hne : ∀ v ∈ cells, NotErr v) (ht : Spec.Val.text [] ∉ cells) :
+    (cells.map toCell).foldl Impl.countaStep n = n + Spec.nonBlank cells := by
+  induction cells generalizing n with
+  | nil => rfl
+  | cons v rest ih =>
+    have hr := fun n' => ih n' (fun u hu => hne u (by simp [hu])) (fun h => ht (by simp [h]))
+    cases v with
+    | err e => exact absurd (hne (.err e) (by simp)) (by simp [NotErr])
+    | num x => simp [toCell, Impl.countaStep, Spec.nonBlank, hr]; omega
+    | bool b => simp [toCell, Impl.countaStep, Spec.nonBlank, hr]; omega
+    | blank => simp [toCell, Impl.countaStep, Spec.nonBlank, hr]
+    | text t =>
+      have : t ≠ [] := fun e => ht (by simp [e])
+      simp [toCell, Impl.countaStep, Spec.nonBlank, this, hr]; omega
+
+/-- COUNTA over a range without error cells and without empty-string results counts every
+non-blank cell — numbers, booleans and text alike — on both sides (partial: an error cell and a
+formula cell evaluating to "" are not counted by excelize: findings `agg:COUNTA:*`) -/
+theorem aggregate_fold_counta_partial {N : Type} [NumOps N] (cells : List (Spec.Val N))
+    (hne : ∀ v ∈ cells, NotErr v) (ht : Spec.Val.text [] ∉ cells) :
+    Impl.aggregate .counta (cells.map toCell) = .ok (Impl.mkNum (ofNat (Spec.nonBlank cells))) ∧
+    Spec.aggregate .counta cells = .num (ofNat (Spec.nonBlank cells)) := by
+  simp [Impl.aggregate, Spec.aggregate, countaStep_fold cells 0 hne ht]
+
 /-- clause "MIN, MAX … over arbitrary ranges equal the corresponding fold over the referenced
 cells under Excel's rule that text, booleans and blanks inside a referenced range are ignored":
 both at once (see `aggregate_fold_max`, `aggregate_fold_min`; COUNT, SUM, PRODUCT:
